@@ -448,11 +448,25 @@ theorem failFormProg_serves (a : AppId) (k : Prog) (hk : k.Serves a) : (failForm
   apply reqBodyObj_serves a .request rfl; intro _
   exact reqContentLength_serves a .request rfl _ _ fun _ => hk
 
+theorem failMultipartProg_serves (a : AppId) (k : Prog) (hk : k.Serves a) :
+    (failMultipartProg a k).Serves a := by
+  unfold failMultipartProg
+  refine Prog.Serves.step _ _ req_attr_environ fun _ => ?_
+  refine Prog.Serves.step _ _ trivial fun _ => ?_
+  refine Prog.Serves.step _ _ req_attr_environ fun _ => ?_
+  refine Prog.Serves.step _ _ trivial fun _ => ?_
+  refine Prog.Serves.step _ _ req_attr_environ fun _ => ?_
+  refine Prog.Serves.step _ _ trivial fun _ => ?_
+  apply reqContentType_serves a .request rfl; intro _
+  refine Prog.Serves.step _ _ trivial fun _ => ?_
+  exact reqBodyObj_serves a .request rfl _ _ fun _ => hk
+
 theorem outcome_serves (a : AppId) (o : Outcome) (k : Out → Prog) (hk : ∀ x, (k x).Serves a) :
     (outcome a o k).Serves a := by
   cases o with
   | failJson e => simp only [outcome]; exact failJsonProg_serves a _ (hk _)
   | failForm e => simp only [outcome]; exact failFormProg_serves a _ (hk _)
+  | failMultipart e => simp only [outcome]; exact failMultipartProg_serves a _ (hk _)
   | ret s => simp only [outcome]; exact hk _
   | retBytes s => simp only [outcome]; exact hk _
   | empty => simp only [outcome]; exact hk _
